@@ -36,6 +36,8 @@ func init() {
 	register("c18", "C18 extract: run the real extractor on std and random packages, compare with go/types and compile the output", runC18)
 }
 
+var c18BaselineRestricted = map[string]bool{"osExit": true, "osFindProcess": true, "logFatal": true, "logFatalf": true, "logFatalln": true, "logLogger": true, "logNew": true}
+
 var c18Always = []string{"math", "os", "log", "io", "fmt", "sort", "net/http", "strings", "time", "go/token", "context", "database/sql/driver", "log/syslog", "io/fs", "encoding/json", "reflect", "math/big", "go/constant"}
 
 type c18Job struct {
@@ -56,8 +58,11 @@ type c18Job struct {
 	wmeths   int
 	err      error
 	view     *c18Pkg
-	obs      *c18Obs
-	ref      *c18Ref
+	viewCoq  string
+	refCoq   string
+	obsCoq   [2]string // rendered with compile verdict false / true
+	declKeys []string
+	failed   bool // the extractor returned an error
 	dur      time.Duration
 }
 
@@ -146,6 +151,12 @@ func runC18(args []string) error {
 	for _, k := range restrictedKeys {
 		restricted[k] = true
 	}
+	// regions are defined by the table of the unchanged tree; an entry added later is not part of any known finding
+	for k := range restricted {
+		if !c18BaselineRestricted[k] {
+			delete(restricted, k)
+		}
+	}
 	restrictedGo, err := os.ReadFile(filepath.Join(c18Repo(), "stdlib", "restricted.go"))
 	if err != nil {
 		return err
@@ -197,7 +208,7 @@ func runC18(args []string) error {
 	// ---------------------------------------------------------------- B. random packages
 	nMain, nRegion := 90, 3
 	if *tier == "thorough" {
-		nMain, nRegion = 3000, 40
+		nMain, nRegion = 2000, 25
 	}
 	if *only != "" {
 		nMain, nRegion = 0, 0
@@ -271,7 +282,7 @@ func runC18(args []string) error {
 	disagree := 0
 	for _, j := range jobs {
 		msg, failed := buildFailed["vt/"+j.OutDir]
-		if failed == j.compiles {
+		if failed == j.compiles && !j.failed {
 			disagree++
 			sm.Notes = append(sm.Notes, fmt.Sprintf("go/types and go build disagree on case %d (%s): go/types ok=%v, go build: %s", j.ID, j.IPath, j.compiles, msg))
 		}
@@ -303,7 +314,7 @@ func runC18(args []string) error {
 		sm.RefComparisons += j.rows + 1
 		sm.Distribution["rows"] += j.rows
 		sm.Distribution["wrapper-methods"] += j.wmeths
-		if !j.compiles {
+		if !j.compiles && !j.failed {
 			sm.count("does-not-compile")
 			region := ""
 			if causes := c18CompileCauses(j.view, restricted); len(causes) > 0 {
@@ -319,16 +330,25 @@ func runC18(args []string) error {
 		if len(sm.Samples) < 4 && j.Kind == "rand" && j.Region == "" {
 			sm.Samples = append(sm.Samples, map[string]any{"import_path": j.IPath, "source": j.Rand.Source})
 		}
-		for _, d := range j.view.Decls {
-			if d.Exported {
-				distinct.add(j.IPath, d.Name, d.coq())
-			}
+		for _, k := range j.declKeys {
+			distinct.add(j.IPath, k)
 		}
-		j.coq = fmt.Sprintf("(%d%%N,\n %s,\n %s,\n %s)", j.ID, j.view.coq(), j.obs.coq(j.compiles), j.ref.coq())
+		oc := j.obsCoq[0]
+		if j.compiles {
+			oc = j.obsCoq[1]
+		}
+		j.coq = fmt.Sprintf("(%d%%N,\n %s,\n %s,\n %s)", j.ID, j.viewCoq, oc, j.refCoq)
+		j.viewCoq, j.refCoq, j.obsCoq, j.declKeys = "", "", [2]string{}, nil
 		entries = append(entries, entry{j.coq, len(j.coq)})
 	}
 	sort.SliceStable(entries, func(a, b int) bool { return entries[a].size > entries[b].size })
-	nb := 16
+	nb, total := 16, 0
+	for _, e := range entries {
+		total += e.size
+	}
+	if total/400000 > nb { // keep each coqc process small
+		nb = total / 400000
+	}
 	if len(entries) < nb {
 		nb = len(entries)
 	}
@@ -421,19 +441,12 @@ func c18RunOne(j *c18Job, minor int, restricted map[string]bool, restrictedGo st
 			j.err = fmt.Errorf("extractor: %w", err)
 		}
 	}()
-	if j.err != nil {
-		if j.Rand != nil {
-			j.err = fmt.Errorf("%w\n%s", j.err, j.Rand.Source)
-		}
-		return
-	}
+	extractErr := j.err
+	j.err = nil
 	j.out = buf.Bytes()
-	t1 := time.Now()
-	defer func() {
-		if os.Getenv("C18_DEBUG") == "2" {
-			fmt.Fprintf(os.Stderr, "    %s: after extract %.2fs\n", j.IPath, time.Since(t1).Seconds())
-		}
-	}()
+	if extractErr != nil {
+		j.out = []byte("package " + j.Dest + "\n")
+	}
 
 	// ---- reference view
 	fset := token.NewFileSet()
@@ -441,6 +454,9 @@ func c18RunOne(j *c18Job, minor int, restricted map[string]bool, restrictedGo st
 	refPkg, err := imp.Import(j.IPath)
 	if err != nil {
 		j.err = fmt.Errorf("reference import: %w", err)
+		if j.Rand != nil {
+			j.err = fmt.Errorf("%w\n%s", j.err, j.Rand.Source)
+		}
 		return
 	}
 	view := c18View(refPkg, j.IPath, minor)
@@ -450,7 +466,18 @@ func c18RunOne(j *c18Job, minor int, restricted map[string]bool, restrictedGo st
 	// ---- observation
 	obs, f1, err := c18ReadOutput(fset, "out.go", j.out)
 	if err != nil {
-		j.err = fmt.Errorf("generated file does not parse: %w\n%s", err, j.out)
+		extractErr = fmt.Errorf("generated file does not parse: %w", err)
+		j.out = []byte("package " + j.Dest + "\n")
+		obs, f1, _ = c18ReadOutput(fset, "out2.go", j.out)
+	}
+	if extractErr != nil {
+		// the extractor refused a valid package (or wrote something that is not Go): never what Y or the contract say
+		obs.Problems = append(obs.Problems, firstLine(extractErr.Error()))
+		c18Finish(j, view, obs, ref)
+		j.compiles = false
+		j.compErr = firstLine(extractErr.Error())
+		j.diffs = []c18Diff{{"(extract)", "", "the extractor fails on a valid package", firstLine(extractErr.Error()), "a generated file"}}
+		j.failed = true
 		return
 	}
 	files := []*ast.File{f1}
@@ -506,5 +533,25 @@ func c18RunOne(j *c18Job, minor int, restricted map[string]bool, restrictedGo st
 		j.rows += len(w.Methods)
 		j.wmeths += len(w.Methods)
 	}
-	j.obs, j.ref = obs, ref
+	c18Finish(j, view, obs, ref)
+}
+
+// c18Finish renders everything that needs go/types objects and drops them (thousands of jobs are kept until the end).
+func c18Finish(j *c18Job, view *c18Pkg, obs *c18Obs, ref *c18Ref) {
+	j.viewCoq, j.refCoq = view.coq(), ref.coq()
+	j.obsCoq = [2]string{obs.coq(false), obs.coq(true)}
+	for _, d := range view.Decls {
+		if d.Exported {
+			j.declKeys = append(j.declKeys, d.Name+"\x00"+d.coq())
+		}
+	}
+	for i := range view.Decls {
+		view.Decls[i].obj = nil
+		if view.Decls[i].Iface != nil {
+			for k := range view.Decls[i].Iface.Methods {
+				view.Decls[i].Iface.Methods[k].sig = nil
+			}
+		}
+	}
+	j.view = view
 }
